@@ -1067,7 +1067,11 @@ func TestRewrite(t *testing.T) {
 		m0 := &s.Msgs[0]
 		// several (template, input) pairs per schema: building the Go type, the
 		// descriptor and the library's type caches dominates the cost
-		for rep := rapid.IntRange(2, 5).Draw(rt, "pairs"); rep > 0; rep-- {
+		plo, phi := 2, 5
+		if evid.Thorough() {
+			plo, phi = 8, 20
+		}
+		for rep := rapid.IntRange(plo, phi).Draw(rt, "pairs"); rep > 0; rep-- {
 			c := Case{Schema: s}
 			var gs genStats
 			switch rapid.IntRange(0, 9).Draw(rt, "mode") {
